@@ -16,22 +16,29 @@
 (* the same.                                                               *)
 (*                                                                         *)
 (* F1  until A has reloaded successfully, A = B iteration by iteration     *)
-(*     (OS events, client messages, active layer; idle/blocking as soon as *)
-(*     no request is pending); no ConfigFileReload without a reload; a     *)
-(*     reload needs a request that has not been used up by an earlier      *)
-(*     (failed) attempt.                                                   *)
+(*     (OS events, client messages, active layer; idle/blocking whenever   *)
+(*     no request is pending); no ConfigFileReload unless the              *)
+(*     configuration was replaced; a replacement needs a request that has  *)
+(*     not been used up by an earlier (failed) attempt and a requested     *)
+(*     file that parses.                                                   *)
 (* F2  a successful reload (a) happens only in an iteration after which no *)
-(*     output key is down, or after one idle second; (b) is not postponed  *)
-(*     once no output key is down; (c) sends ConfigFileReload then         *)
-(*     LayerChange naming the first layer, which (d) is the active layer;  *)
-(*     (e) whatever was down at the OS is released within `bound`          *)
-(*     iterations; (f) with no key held kanata becomes idle within         *)
-(*     `settle` iterations; (g) from that idle point on A = C.             *)
+(*     output key is down, or after one second (`sec` iterations) without  *)
+(*     input while the request is pending; (b) is not postponed once no    *)
+(*     output key is down; (c) sends ConfigFileReload then LayerChange     *)
+(*     naming the first layer, which (d) is the active layer; (e) whatever *)
+(*     was down at the OS is released within `bound` iterations; (f) with  *)
+(*     no key held kanata becomes idle within `settle` iterations; (g)     *)
+(*     from that idle point on A = C.                                      *)
 (* F3  lrld reloads the file in use, lrld-next / lrld-prev its cyclic       *)
 (*     neighbours in command-line order, (lrld-num n) the n-th file; a      *)
-(*     requested file that parses is applied.                               *)
-(* Soft (statement silent): how two requests in one batch combine beyond   *)
-(* composition in press order; (lrld-num n) with n outside the list.       *)
+(*     requested file that parses during the whole batch is applied.        *)
+(*     Failed attempts are not observable, so a request of a batch may be   *)
+(*     applied to the result of the previous one or to the file in use.     *)
+(*     F3x names the one deviation that is explained by "the index moved    *)
+(*     although the reload failed".                                         *)
+(* Soft (statement silent): (lrld-num n) with n outside the list; requests  *)
+(* that are still queued when another request's reload replaces the layout; *)
+(* whether a reload must come after one idle second with a key held.        *)
 (*                                                                         *)
 (* params = [files  : <<kind..>>  initial content kind of every file,       *)
 (*           valid  : <<kind..>>  kinds that parse,                         *)
@@ -154,7 +161,8 @@ MonTick(m, r) ==
   LET a == r.A
       n == r.n
       down1 == DownAfter(a.out, m.down)
-      since1 == OMin(m.since + n, m.p.scap)
+      \* "one idle second": iterations without input while the request is pending
+      since1 == IF a.lrr \/ a.repl THEN OMin(m.since + n, m.p.scap) ELSE 0
       \* --- lane B: as if no reload had been requested
       m1 == IF m.phase = "pre" /\ r.B.on /\ ~(a.out = r.B.out)
             THEN Fail(m, "F1: before any successful reload the OS output differs from the run without requests")
